@@ -18,6 +18,7 @@ from pv.canon import Exc, T, Val, exc_name
 COQ_REQUIRE = "Proc.Run"
 COQ_DIRS = ["Proc"]
 BTIME0 = 1500000000
+KERNEL_EVENTS = ("spawn", "thread", "exit", "reap", "clock")
 PID_MAX = 2 ** 31
 PIDS = [0, 1, 2, 3, 7, 2 ** 31 - 1]
 BAD_PIDS = [-1, -7, 5, 2 ** 31, 2 ** 64]
@@ -73,9 +74,12 @@ class Shadow:
     def owned(self, o):
         return self.objs[o][0] in self.table
 
-    def _new(self, pid):
+    def _new(self, pid, popen=False):
         if 0 <= pid < PID_MAX and pid in self.table:
             self.objs.append([pid, self.table[pid][1], False, False, self.table[pid][0]])
+            return len(self.objs) - 1
+        if popen and 0 <= pid < PID_MAX:
+            self.objs.append([pid, None, True, False, None])      # child already gone: no identity, _gone
             return len(self.objs) - 1
         return None
 
@@ -104,8 +108,14 @@ class Shadow:
         elif k == "new":
             self._new(e[1])
         elif k == "popen":
-            if e[1] in self.table:
-                self._new(e[1])
+            self._new(e[1], popen=True)
+        elif k == "race":
+            if e[1] < len(self.objs):
+                x = self.objs[e[1]]
+                if not (x[2] or x[3]):
+                    self._isrun(e[1])
+            for ke in e[3]:
+                self.apply(ke)
         elif k == "os_enter":
             if e[1] < len(self.objs):
                 self.depth[e[1]] = self.depth.get(e[1], 0) + 1
@@ -179,11 +189,20 @@ def gen_history(rng, n_events, flavour):
                     feats.add("set-reused-after-gone")
             else:
                 feats.add("set-gone")
+        if k == "race" and e[1] < len(sh.objs):
+            feats.add("race-window" if e[3] else "race-empty-window")
+            if sh.alive(e[1]) and any(x[0] == "reap" and x[1] == sh.objs[e[1]][0] for x in e[3]) \
+                    and any(x[0] == "spawn" and x[1] == sh.objs[e[1]][0] for x in e[3]):
+                feats.add("race-toctou")
         if k == "isrun" and e[1] < len(sh.objs):
             feats.add("isrun-alive" if sh.alive(e[1]) else ("isrun-reused" if sh.owned(e[1]) else "isrun-gone"))
         if k in ("eq", "hasheq") and max(e[1], e[2]) < len(sh.objs):
             a, b = sh.objs[e[1]], sh.objs[e[2]]
-            if e[1] != e[2] and a[0] == b[0] and abs(a[1] - b[1]) == 1:
+            if e[1] != e[2] and a[0] != b[0] and a[1] is not None and a[1] == b[1]:
+                feats.add("eq-other-pid-same-start")
+            if a[1] is None or b[1] is None:
+                feats.add("popen-gone-child")
+            if e[1] != e[2] and a[0] == b[0] and None not in (a[1], b[1]) and abs(a[1] - b[1]) == 1:
                 feats.add("eq-adjacent-ticks")
             if e[1] != e[2]:
                 feats.add("eq-same-proc" if a[4] == b[4] else ("eq-same-pid-other-proc" if a[0] == b[0] else "eq-other-pid"))
@@ -268,6 +287,51 @@ def gen_history(rng, n_events, flavour):
         if rng.random() < 0.5:
             emit(["set", o, gen_setter(rng)])
 
+    def window(o):
+        """kernel events happening between psutil's identity check and its system call"""
+        pid = sh.objs[o][0]
+        r = rng.random()
+        if pid not in sh.table or r < 0.15:
+            return []
+        if r < 0.55:
+            # the inherent TOCTOU: reaped and the PID handed out again inside the window
+            used = sh.starts.get(pid, set())
+            cand = [t for t in (sh.table[pid][1] + 1, sh.table[pid][1] + 2) + tuple(STARTS) if t not in used]
+            return ([["exit", pid]] if rng.random() < 0.3 else []) + [["reap", pid]] + \
+                   [["spawn", pid, cand[0], 1, rng.choice(COMMS)]]
+        if r < 0.7:
+            return [["reap", pid]]
+        if r < 0.8:
+            return [["exit", pid]]
+        if r < 0.9:
+            return [["thread", pid], ["clock", 5]]
+        return [["clock", -7]]
+
+    def race_motif():
+        o = some_obj(lambda i: sh.alive(i)) if rng.random() < 0.75 else some_obj()
+        if o is None:
+            return
+        emit(["race", o, gen_setter(rng), window(o)])
+        if rng.random() < 0.6:
+            emit(rng.choice([["isrun", o], ["set", o, gen_setter(rng)], ["ppid", o]]))
+
+    def same_start_motif():
+        free = sh.free_pids()
+        if len(free) < 2:
+            return
+        a, b = rng.sample(free, 2)
+        cand = [t for t in STARTS if t not in sh.starts.get(a, ()) and t not in sh.starts.get(b, ())]
+        if not cand:
+            return
+        t = rng.choice(cand)
+        emit(["spawn", a, t, 1, rng.choice(COMMS)])
+        emit(["spawn", b, t, 1, rng.choice(COMMS)])
+        emit(["new", a])
+        emit(["new", b] if rng.random() < 0.7 else ["popen", b])
+        n = len(sh.objs)
+        emit(["eq", n - 2, n - 1])
+        emit(["hasheq", n - 1, n - 2])
+
     # a little population first
     for _ in range(rng.choice([1, 2, 3])):
         spawn_some()
@@ -286,20 +350,26 @@ def gen_history(rng, n_events, flavour):
             emit(["thread", rng.choice(sorted(sh.table))])
         elif r < 0.37:
             pid = rng.choice(sorted(sh.table)) if sh.table and rng.random() < 0.85 else rng.choice(PIDS + BAD_PIDS)
-            if rng.random() < 0.3 and pid in sh.table:
+            if rng.random() < 0.3 and (pid in sh.table or (0 <= pid < PID_MAX and rng.random() < 0.5)):
+                if pid not in sh.table:
+                    feats.add("popen-gone-child")
                 emit(["popen", pid])
                 feats.add("popen")
             else:
                 emit(["new", pid])
         elif r < 0.40:
             emit(["boot"])
-        elif r < 0.44:
+        elif r < 0.43:
             emit(["iter"])
+        elif r < 0.44:
+            same_start_motif()
         elif objs_n == 0:
             continue
-        elif r < 0.50:
+        elif r < 0.49:
             oneshot_motif()
-        elif r < 0.62:
+        elif r < 0.54:
+            race_motif()
+        elif r < 0.64:
             # motif: end of a process, optional queries, optional reuse, then the call under test
             o = some_obj(lambda i: sh.alive(i)) if rng.random() < 0.8 else some_obj()
             if o is None:
@@ -328,7 +398,7 @@ def gen_history(rng, n_events, flavour):
                 if len(sh.objs) > 1:
                     emit(["eq", o, len(sh.objs) - 1])
                     emit(["hasheq", o, len(sh.objs) - 1])
-        elif r < 0.70:
+        elif r < 0.71:
             # motif: clock step, boot_time(), a second object for the same process, compare
             o = some_obj(lambda i: sh.alive(i))
             if o is None:
@@ -355,8 +425,11 @@ def gen_history(rng, n_events, flavour):
                 emit(["isrun", o])
             elif w < 0.65:
                 emit(["eq", o, rng.randrange(objs_n)])
-            elif w < 0.8:
+            elif w < 0.75:
                 emit(["hasheq", o, rng.randrange(objs_n)])
+            elif w < 0.8:
+                emit(["eqother", o, rng.choice(["int", "ident", "object", "none", "str", "pidfloat"])])
+                feats.add("eq-non-process")
             elif w < 0.9:
                 emit(["ppid", o])
             else:
@@ -365,10 +438,10 @@ def gen_history(rng, n_events, flavour):
         feats.add("oneshot-set-reused")
     if "popen" in feats and ("set-reused" in feats or "set-reused-after-gone" in feats):
         feats.add("popen-set-reused")
-    order = ["oneshot-set-reused", "popen-set-reused", "set-reused-after-gone", "set-reused", "pid0", "set-gone", "set-zombie", "eq-same-pid-other-proc", "isrun-reused",
+    order = ["race-toctou", "race-window", "race-empty-window", "oneshot-set-reused", "popen-set-reused", "set-reused-after-gone", "set-reused", "pid0", "set-gone", "set-zombie", "eq-same-pid-other-proc", "isrun-reused",
              "clock", "eq-same-proc", "isrun-gone", "iter", "set-alive", "isrun-alive", "eq-other-pid"]
     if flavour == "c02":
-        order = ["eq-adjacent-ticks", "eq-same-pid-other-proc", "isrun-reused", "clock", "eq-same-proc", "isrun-gone", "set-reused", "iter",
+        order = ["popen-gone-child", "eq-other-pid-same-start", "eq-non-process", "eq-adjacent-ticks", "eq-same-pid-other-proc", "isrun-reused", "clock", "eq-same-proc", "isrun-gone", "set-reused", "iter",
                  "isrun-alive", "eq-other-pid", "set-gone", "set-alive"]
     cls = next((f for f in order if f in feats), "trivial")
     return {"kind": "hist", "cls": cls, "evs": evs}
@@ -392,18 +465,29 @@ def _setter_term(s):
     raise ValueError(k)
 
 
-def _ev_term(e):
+def _kev_term(e):
     k = e[0]
     if k == "spawn":
-        return "EK (Spawn %s %s %s %s)" % (G.z(e[1]), G.z(e[2]), G.z(e[3]), G.by(e[4] if len(e) > 4 else "proc"))
+        return "(Spawn %s %s %s %s)" % (G.z(e[1]), G.z(e[2]), G.z(e[3]), G.by(e[4] if len(e) > 4 else "proc"))
     if k == "thread":
-        return "EK (SpawnThread %s)" % G.z(e[1])
+        return "(SpawnThread %s)" % G.z(e[1])
     if k == "exit":
-        return "EK (Exit %s)" % G.z(e[1])
+        return "(Exit %s)" % G.z(e[1])
     if k == "reap":
-        return "EK (Reap %s)" % G.z(e[1])
+        return "(Reap %s)" % G.z(e[1])
     if k == "clock":
-        return "EK (ClockStep %s)" % G.z(e[1])
+        return "(ClockStep %s)" % G.z(e[1])
+    raise ValueError(k)
+
+
+def _ev_term(e):
+    k = e[0]
+    if k in KERNEL_EVENTS:
+        return "EK " + _kev_term(e)
+    if k == "race":
+        return "ER %s %s %s" % (G.nat(e[1]), _setter_term(e[2]), G.lst([_kev_term(x) for x in e[3]]))
+    if k == "eqother":
+        return "EC (EqOther %s)" % G.nat(e[1])
     if k == "new":
         return "EC (New %s)" % G.z(e[1])
     if k == "popen":
@@ -474,7 +558,7 @@ def judge_history(case, coq, impl, spec_kinds, what):
         allowed = coq["spec"][i]
         if allowed is not None and e[0] in spec_kinds:
             mine = [got[0], delivered(got[1])]
-            if e[0] == "set" and e[2][0] == "affinity" and not e[2][1]:
+            if e[0] in ("set", "race") and e[2][0] == "affinity" and not e[2][1]:
                 # which CPUs an empty list stands for is C18's subject: here only "an affinity request to this PID"
                 mine, allowed = _any_cpus(mine), [_any_cpus(a) for a in allowed]
             if mine not in allowed:
@@ -508,7 +592,14 @@ def impl_run(case, coq, env):
     state = {"nextinc": 0, "btime": BTIME0}
     log = []
 
+    pending = []    # kernel events of the window of a "race" call, applied when psutil reaches its system call
+
+    def flush_pending():
+        while pending:
+            apply_kev(pending.pop(0))
+
     def attempt(rec, pid):
+        flush_pending()
         k = table.get(pid) if isinstance(pid, int) else None
         log.append([rec, k["inc"] if k else None])
         if k is None:
@@ -624,35 +715,49 @@ def impl_run(case, coq, env):
             return T("EqualButHashDiffers")      # equal objects must hash alike
         return r
 
+    def apply_kev(e):
+        k = e[0]
+        if k == "spawn":
+            table[e[1]] = {"inc": state["nextinc"], "start": e[2], "ppid": e[3], "zomb": False, "nthr": 1,
+                           "comm": (e[4] if len(e) > 4 else "proc").encode()}
+            state["nextinc"] += 1
+            write_proc(e[1])
+        elif k == "thread":
+            if e[1] in table:
+                table[e[1]]["nthr"] += 1
+                write_proc(e[1])
+        elif k == "exit":
+            if e[1] in table:
+                table[e[1]]["zomb"] = True
+                write_proc(e[1])
+        elif k == "reap":
+            if e[1] in table:
+                del table[e[1]]
+                fp.remove(e[1])
+        elif k == "clock":
+            state["btime"] += e[1]
+            fp.set_btime(state["btime"])
+        else:
+            raise ValueError(k)
+
+    OTHERS = {"int": lambda p: p.pid, "ident": lambda p: p._ident, "object": lambda p: object(), "none": lambda p: None,
+              "str": lambda p: str(p.pid), "pidfloat": lambda p: float(p.pid)}
+
+    def eq_other(o, kind):
+        p = objs[o]
+        x = OTHERS[kind](p)
+        r = p == x
+        if (p != x) is not True or p.__eq__(x) is not NotImplemented or (x == p) is not False:
+            return T("EqOtherInconsistent", repr((r, p != x, p.__eq__(x))))
+        return r if isinstance(r, bool) else T("NotBool", repr(r))
+
     out = []
     try:
         for e in case["evs"]:
             k = e[0]
             mark = len(log)
-            if k == "spawn":
-                table[e[1]] = {"inc": state["nextinc"], "start": e[2], "ppid": e[3], "zomb": False, "nthr": 1,
-                               "comm": (e[4] if len(e) > 4 else "proc").encode()}
-                state["nextinc"] += 1
-                write_proc(e[1])
-                r = Val(None)
-            elif k == "thread":
-                if e[1] in table:
-                    table[e[1]]["nthr"] += 1
-                    write_proc(e[1])
-                r = Val(None)
-            elif k == "exit":
-                if e[1] in table:
-                    table[e[1]]["zomb"] = True
-                    write_proc(e[1])
-                r = Val(None)
-            elif k == "reap":
-                if e[1] in table:
-                    del table[e[1]]
-                    fp.remove(e[1])
-                r = Val(None)
-            elif k == "clock":
-                state["btime"] += e[1]
-                fp.set_btime(state["btime"])
+            if k in KERNEL_EVENTS:
+                apply_kev(e)
                 r = Val(None)
             elif coq["model"][len(out)][0] == T("OutOfModel"):
                 r = T("OutOfModel")      # the model does not cover this call in this state: not issued
@@ -683,6 +788,14 @@ def impl_run(case, coq, env):
                 r = outcome(lambda: hash_eq(e[1], e[2]), lambda b: b)
             elif k == "set":
                 r = outcome(lambda: do_set(objs[e[1]], e[2]), conv_none)
+            elif k == "race":
+                # the kernel events of the window happen when psutil reaches its system call (or, if it never
+                # does, right after the call)
+                pending.extend(e[3])
+                r = outcome(lambda: do_set(objs[e[1]], e[2]), conv_none)
+                flush_pending()
+            elif k == "eqother":
+                r = outcome(lambda: eq_other(e[1], e[2]), lambda b: b)
             elif k == "ppid":
                 r = outcome(objs[e[1]].ppid, int)
             elif k == "ctime":
